@@ -27,54 +27,82 @@ pub struct Case {
     pub via_env: bool,
     /// outcome sequences: one digit per attempt (see OUTCOMES)
     pub seqs: Vec<Vec<u8>>,
+    /// raw environment strings for from_env (MAX_RETRIES, RETRY_BACKOFF, MAX_BACKOFF, BACKOFF_MULTIPLIER,
+    /// RETRY_JITTER); "<unset>" removes the variable. Overrides the typed fields: whatever policy from_env
+    /// makes of them is the policy under test (it must not panic).
+    #[serde(default)]
+    pub env_raw: Option<Vec<String>>,
 }
 
-/// outcome alphabet: (name, retryable, hint)
-const OUTCOMES: [(&str, bool, Option<u64>); 12] = [
-    ("Ok", false, None),
-    ("Network", true, None),
-    ("RateLimited(None)", true, None),
-    ("RateLimited(0)", true, Some(0)),
-    ("RateLimited(1ms)", true, Some(1)),
-    ("RateLimited(7s)", true, Some(7000)),
-    ("Parse", false, None),
-    ("Timeout", true, None),
-    ("ServerError(503)", true, None),
-    ("HttpStatus(404)", false, None),
-    ("HttpStatus(429)", true, None),
-    ("ServiceUnavailable", true, None),
+/// outcome alphabet: (name, hint in ms). Whether an error is retryable is asked of the error itself
+/// (`ProtocolError::should_retry`): the property speaks of "retryable" and "non-retryable" errors, it
+/// does not say which concrete error is which.
+const OUTCOMES: [(&str, Option<u64>); 22] = [
+    ("Ok", None),
+    ("Network", None),
+    ("RateLimited(None)", None),
+    ("RateLimited(0)", Some(0)),
+    ("RateLimited(1ms)", Some(1)),
+    ("RateLimited(7s)", Some(7000)),
+    ("Parse", None),
+    ("Timeout", None),
+    ("ServerError(503)", None),
+    ("HttpStatus(404)", None),
+    ("HttpStatus(429)", None),
+    ("ServiceUnavailable", None),
+    ("RateLimited(u64::MAX s)", Some(u64::MAX)),
+    ("RateLimited(1e12 s)", Some(1_000_000_000_000_000)),
+    ("HttpStatus(500)", None),
+    ("HttpStatus(502)", None),
+    ("HttpStatus(504)", None),
+    ("AllHostsFailed", None),
+    ("InvalidEndpoint", None),
+    ("Other", None),
+    ("InvalidKey", None),
+    ("RangeNotSupported", None),
 ];
+const NOUT: usize = 22;
+
+fn hint_of(o: u8) -> Option<Duration> {
+    match o as usize % NOUT {
+        12 => Some(Duration::from_secs(u64::MAX)),
+        i => OUTCOMES[i].1.map(Duration::from_millis),
+    }
+}
 
 fn make_err(o: u8) -> ProtocolError {
-    match o {
+    match o as usize % NOUT {
         1 => ProtocolError::Network(std::io::Error::new(std::io::ErrorKind::ConnectionReset, "reset")),
         2 => ProtocolError::RateLimited { retry_after: None },
-        3 => ProtocolError::RateLimited { retry_after: Some(Duration::ZERO) },
-        4 => ProtocolError::RateLimited { retry_after: Some(Duration::from_millis(1)) },
-        5 => ProtocolError::RateLimited { retry_after: Some(Duration::from_secs(7)) },
+        3 | 4 | 5 | 12 | 13 => ProtocolError::RateLimited { retry_after: hint_of(o) },
         6 => ProtocolError::Parse("bad".into()),
         7 => ProtocolError::Timeout,
         8 => ProtocolError::ServerError(StatusCode::SERVICE_UNAVAILABLE),
         9 => ProtocolError::HttpStatus(StatusCode::NOT_FOUND),
         10 => ProtocolError::HttpStatus(StatusCode::TOO_MANY_REQUESTS),
+        14 => ProtocolError::HttpStatus(StatusCode::INTERNAL_SERVER_ERROR),
+        15 => ProtocolError::HttpStatus(StatusCode::BAD_GATEWAY),
+        16 => ProtocolError::HttpStatus(StatusCode::GATEWAY_TIMEOUT),
+        17 => ProtocolError::AllHostsFailed,
+        18 => ProtocolError::InvalidEndpoint("x".into()),
+        19 => ProtocolError::Other("x".into()),
+        20 => ProtocolError::InvalidKey,
+        21 => ProtocolError::RangeNotSupported,
         _ => ProtocolError::ServiceUnavailable,
     }
 }
-fn err_tag(e: &ProtocolError) -> u8 {
+/// The error an outcome produces, reduced to what identifies it (variant + payload).
+fn err_sig(e: &ProtocolError) -> String {
     match e {
-        ProtocolError::Network(_) => 1,
-        ProtocolError::RateLimited { retry_after: None } => 2,
-        ProtocolError::RateLimited { retry_after: Some(d) } if d.is_zero() => 3,
-        ProtocolError::RateLimited { retry_after: Some(d) } if *d == Duration::from_millis(1) => 4,
-        ProtocolError::RateLimited { .. } => 5,
-        ProtocolError::Parse(_) => 6,
-        ProtocolError::Timeout => 7,
-        ProtocolError::ServerError(_) => 8,
-        ProtocolError::HttpStatus(s) if *s == StatusCode::NOT_FOUND => 9,
-        ProtocolError::HttpStatus(_) => 10,
-        ProtocolError::ServiceUnavailable => 11,
-        _ => 99,
+        ProtocolError::Network(_) => "Network".into(),
+        ProtocolError::RateLimited { retry_after } => format!("RateLimited({retry_after:?})"),
+        ProtocolError::HttpStatus(s) => format!("HttpStatus({})", s.as_u16()),
+        ProtocolError::ServerError(s) => format!("ServerError({})", s.as_u16()),
+        other => format!("{other:?}"),
     }
+}
+fn retryable(o: u8) -> bool {
+    o != 0 && make_err(o).should_retry()
 }
 
 const MULTS: [&str; 10] = ["0", "0.5", "1", "2", "10", "1e300", "NaN", "-1", "-0.0", "inf"];
@@ -130,7 +158,11 @@ impl Scenario for Retry {
     fn generate(&self, rng: &mut Rng, _tier: Tier) -> Case {
         // NOTE: the policy index is taken from the first draw so that consecutive run indices do
         // not matter; coverage of the whole grid is reported by the evidence (distinct policies)
-        let pi = rng.below(3000) as usize;
+        let drawn = rng.below(3000) as usize;
+        // inside a batch the grid is walked in order (run i takes policy i mod 3000), so a batch of >= 3000
+        // runs covers every policy whatever the seed; outside a batch (sim gen) the index is drawn
+        let idx = crate::framework::run_index();
+        let pi = if idx == u64::MAX { drawn } else { (idx % 3000) as usize };
         let max_attempts = (pi % 6) as u32;
         let initial_ms = DURS_MS[(pi / 6) % 5];
         let max_ms = DURS_MS[(pi / 30) % 5];
@@ -139,7 +171,7 @@ impl Scenario for Retry {
         let via_env = rng.chance(35, 100);
         let mut seqs: Vec<Vec<u8>> = Vec::new();
         // all sequences up to length 3 over a reduced alphabet (one representative per behaviour class)
-        let alpha: [u8; 6] = [0, 1, 3, 5, 6, 10];
+        let alpha: [u8; 7] = [0, 1, 3, 5, 6, 10, if rng.chance(1, 2) { 12 } else { 17 }];
         for a in alpha {
             seqs.push(vec![a]);
             for b in alpha {
@@ -153,16 +185,51 @@ impl Scenario for Retry {
         let maxlen = max_attempts as usize + 2;
         for _ in 0..48 {
             let len = rng.range(1, maxlen as u64) as usize;
-            let retryable: [u8; 9] = [1, 2, 3, 4, 5, 7, 8, 10, 11];
+            // (outcome 13, a hint of 31 000 years, is in the table but not generated: tokio's PAUSED clock cannot
+            // jump that far past other timers - a limit of the simulator, not of the code under test; the
+            // u64::MAX-second hint is turned into tokio's own "far future" of 30 years and is fine)
+            let retryable: [u8; 13] = [1, 2, 3, 4, 5, 7, 8, 10, 11, 12, 14, 15, 16];
             let mut s: Vec<u8> = (0..len).map(|_| *rng.pick(&retryable)).collect();
             match rng.below(3) {
                 0 => s.push(0),
-                1 => s.push(*rng.pick(&[6u8, 9])),
+                1 => s.push(*rng.pick(&[6u8, 9, 17, 18, 19, 20, 21])),
                 _ => {}
             }
             seqs.push(s);
         }
-        Case { max_attempts, initial_ms, max_ms, mult, jitter, via_env, seqs }
+        // one run in eight builds its policy from RAW environment strings: huge, negative, fractional,
+        // garbage, padded or unset values (the documented configuration surface)
+        let env_raw = if rng.chance(1, 8) {
+            let pick = |rng: &mut Rng, good: String| -> String {
+                match rng.below(12) {
+                    0 => "18446744073709551615".into(),
+                    1 => "-1".into(),
+                    2 => "1.5".into(),
+                    3 => "abc".into(),
+                    4 => String::new(),
+                    5 => format!(" {good} "),
+                    6 => "<unset>".into(),
+                    7 => "99999999999999999999999999".into(),
+                    _ => good,
+                }
+            };
+            Some(vec![
+                pick(rng, max_attempts.to_string()),
+                pick(rng, initial_ms.to_string()),
+                pick(rng, (max_ms / 1000).to_string()),
+                match rng.below(8) {
+                    0 => "1e309".into(),
+                    1 => "-inf".into(),
+                    2 => "abc".into(),
+                    3 => "<unset>".into(),
+                    _ => mult.clone(),
+                },
+                (*rng.pick(&["true", "false", "TRUE", "1", "yes", "", "<unset>"])).to_string(),
+            ])
+        } else {
+            None
+        };
+        Case { max_attempts, initial_ms, max_ms, mult, jitter, via_env, seqs, env_raw }
     }
 
     fn execute(&self, case: &Case, ctx: &mut Ctx) -> Option<Violation> {
@@ -197,38 +264,68 @@ impl Scenario for Retry {
     }
 }
 
+const ENV_VARS: [&str; 5] = ["CASCETTE_MAX_RETRIES", "CASCETTE_RETRY_BACKOFF", "CASCETTE_MAX_BACKOFF", "CASCETTE_BACKOFF_MULTIPLIER", "CASCETTE_RETRY_JITTER"];
+
 fn build_policy(case: &Case) -> RetryPolicy {
     let mult = parse_mult(&case.mult);
+    // the environment is presented through the getenv seam (an overlay): no setenv in a threaded process
+    if let Some(raw) = &case.env_raw {
+        let vars: Vec<(&str, Option<&str>)> = ENV_VARS.iter().zip(raw.iter()).map(|(n, v)| (*n, if v == "<unset>" { None } else { Some(v.as_str()) })).collect();
+        crate::seams::env_overlay(vars);
+        let p = std::panic::catch_unwind(RetryPolicy::from_env);
+        crate::seams::env_overlay(vec![]);
+        return match p {
+            Ok(p) => p.unwrap_or_default(),
+            Err(e) => std::panic::resume_unwind(e),
+        };
+    }
     if case.via_env {
         // from_env: backoff in ms, max backoff in whole seconds
-        let max_s = case.max_ms / 1000;
-        // SAFETY: the worker executes one run at a time and nothing else reads the environment
-        #[allow(unsafe_code)]
-        unsafe {
-            std::env::set_var("CASCETTE_MAX_RETRIES", case.max_attempts.to_string());
-            std::env::set_var("CASCETTE_RETRY_BACKOFF", case.initial_ms.to_string());
-            std::env::set_var("CASCETTE_MAX_BACKOFF", max_s.to_string());
-            std::env::set_var("CASCETTE_BACKOFF_MULTIPLIER", &case.mult);
-            std::env::set_var("CASCETTE_RETRY_JITTER", if case.jitter { "true" } else { "false" });
+        let vals = [case.max_attempts.to_string(), case.initial_ms.to_string(), (case.max_ms / 1000).to_string(), case.mult.clone(), (if case.jitter { "true" } else { "false" }).to_string()];
+        crate::seams::env_overlay(ENV_VARS.iter().zip(vals.iter()).map(|(n, v)| (*n, Some(v.as_str()))).collect());
+        let p = std::panic::catch_unwind(RetryPolicy::from_env);
+        crate::seams::env_overlay(vec![]);
+        match p {
+            Ok(p) => p.unwrap_or_default(),
+            Err(e) => std::panic::resume_unwind(e),
         }
-        let p = RetryPolicy::from_env().unwrap_or_default();
-        #[allow(unsafe_code)]
-        unsafe {
-            for v in ["CASCETTE_MAX_RETRIES", "CASCETTE_RETRY_BACKOFF", "CASCETTE_MAX_BACKOFF", "CASCETTE_BACKOFF_MULTIPLIER", "CASCETTE_RETRY_JITTER"] {
-                std::env::remove_var(v);
-            }
-        }
-        p
     } else {
         RetryPolicy { max_attempts: case.max_attempts, initial_backoff: Duration::from_millis(case.initial_ms), max_backoff: Duration::from_millis(case.max_ms), multiplier: mult, jitter: case.jitter }
     }
 }
 
 async fn run(case: &Case, ctx: &mut Ctx) -> Option<Violation> {
-    let policy = build_policy(case);
+    let policy = match std::panic::catch_unwind(|| build_policy(case)) {
+        Ok(p) => p,
+        Err(_) => {
+            let (loc, msg) = crate::framework::take_panic().unwrap_or_default();
+            if !crate::framework::panic_in_sut(&loc) {
+                panic!("harness panic at {loc}: {msg}");
+            }
+            return Some(Violation::new("C14.panic", "panic", "C14/retry/panic/from_env".to_string(), format!("RetryPolicy::from_env panicked on environment {:?} at {loc}: {msg}", case.env_raw)));
+        }
+    };
+    if case.env_raw.is_some() {
+        ctx.count("policies_from_raw_environment_strings");
+    }
+    // a policy requested through well-formed environment strings must be the policy requested
+    if case.via_env && case.env_raw.is_none() {
+        let m = parse_mult(&case.mult);
+        let same_mult = (policy.multiplier.is_nan() && m.is_nan()) || policy.multiplier == m;
+        if policy.max_attempts != case.max_attempts || policy.initial_backoff != Duration::from_millis(case.initial_ms) || policy.max_backoff != Duration::from_secs(case.max_ms / 1000) || !same_mult || policy.jitter != case.jitter {
+            return Some(Violation::new(
+                "C14.from_env",
+                "from_env_mismatch",
+                "C14/retry/from_env_mismatch".to_string(),
+                format!("from_env with MAX_RETRIES={} RETRY_BACKOFF={} (ms) MAX_BACKOFF={} (s) BACKOFF_MULTIPLIER={} RETRY_JITTER={} built {policy:?}", case.max_attempts, case.initial_ms, case.max_ms / 1000, case.mult, case.jitter),
+            ));
+        }
+    }
     ctx.obs(format!("{policy:?}").as_bytes());
     let mult = policy.multiplier;
-    let sane_mult = mult.is_finite() && mult >= 0.0 && mult <= 1e6;
+    // "exponentially growing": the exact sequence is only pinned down for a growth factor >= 1; for a factor
+    // below 1 (or not a number) only the upper bound is promised
+    let sane_mult = mult.is_finite() && mult >= 1.0 && mult <= 1e6;
     let max_b = policy.max_backoff;
     let msig = if sane_mult { "mult=sane" } else if mult.is_nan() { "mult=nan" } else if mult < 0.0 { "mult=negative" } else { "mult=huge" };
     let mut retried_any = false;
@@ -239,8 +336,17 @@ async fn run(case: &Case, ctx: &mut Ctx) -> Option<Violation> {
         let calls: Arc<Mutex<Vec<tokio::time::Instant>>> = Arc::new(Mutex::new(Vec::new()));
         let c2 = calls.clone();
         let s2 = seq.clone();
-        let max_hint = seq.iter().filter_map(|o| OUTCOMES[*o as usize % 12].2).max().unwrap_or(0);
-        let budget = Duration::from_millis(((u64::from(policy.max_attempts) + 1) * (((max_b.as_millis() as u64).max(max_hint) as f64 * 1.3) as u64 + 2)) + 1000);
+        // hints above a year are "absurd": tokio caps a single sleep at about 30 years, so the wait is only
+        // required to be long (>= 1 year) and the call not to panic
+        const YEAR_MS: u64 = 365 * 24 * 3600 * 1000;
+        let max_hint = seq.iter().filter_map(|o| hint_of(*o)).map(|d| (d.as_millis().min(u128::from(40 * YEAR_MS))) as u64).max().unwrap_or(0);
+        let per = ((max_b.as_millis().min(u128::from(40 * YEAR_MS)) as u64).max(max_hint) as f64 * 1.3) as u64 + 2;
+        let budget = Duration::from_millis((u64::from(policy.max_attempts.min(1000)) + 1).saturating_mul(per).saturating_add(1000));
+        // waits beyond a year (absurd hint or absurd max_backoff): tokio's PAUSED clock cannot jump more than
+        // its timer wheel spans (2^36 ms, about 2.2 years) in one step, so such a call is cut off after 1.9
+        // virtual years, judged for panics and bounds only, and ends the run (the runtime is not reused)
+        let absurd = budget > Duration::from_millis(YEAR_MS);
+        let budget = budget.min(Duration::from_millis(YEAR_MS));
         let fut = policy.execute(move || {
             let c = c2.clone();
             let s = s2.clone();
@@ -254,11 +360,29 @@ async fn run(case: &Case, ctx: &mut Ctx) -> Option<Violation> {
                 if o == 0 { Ok::<usize, ProtocolError>(i) } else { Err(make_err(o)) }
             }
         });
-        let res = std::panic::AssertUnwindSafe(tokio::time::timeout(budget, fut));
-        let res = futures::FutureExt::catch_unwind(res).await;
+        // Ordinary calls run under tokio's auto-advancing paused clock with a virtual-time budget. A call that
+        // may wait for more than a year is driven by hand instead: tokio's paused clock mis-orders timers that
+        // lie further ahead than its wheel spans (2^36 ms), so it must never be allowed to JUMP to such a
+        // timer. The call is polled, the clock is moved in half-year steps (which fire everything due), and
+        // after three steps the call is abandoned - enough to run into any panic on the way to the long wait.
+        let res: Result<Result<Result<usize, ProtocolError>, ()>, Box<dyn std::any::Any + Send>> = if absurd {
+            let stepped = async {
+                tokio::pin!(fut);
+                for _ in 0..4 {
+                    match futures::poll!(fut.as_mut()) {
+                        std::task::Poll::Ready(r) => return Ok(r),
+                        std::task::Poll::Pending => tokio::time::advance(Duration::from_millis(YEAR_MS / 2)).await,
+                    }
+                }
+                Err(())
+            };
+            futures::FutureExt::catch_unwind(std::panic::AssertUnwindSafe(stepped)).await
+        } else {
+            futures::FutureExt::catch_unwind(std::panic::AssertUnwindSafe(async { tokio::time::timeout(budget, fut).await.map_err(|_| ()) })).await
+        };
         let times: Vec<tokio::time::Instant> = calls.lock().unwrap_or_else(std::sync::PoisonError::into_inner).clone();
         let m = times.len();
-        let names: Vec<&str> = seq.iter().map(|o| OUTCOMES[*o as usize % 12].0).collect();
+        let names: Vec<&str> = seq.iter().map(|o| OUTCOMES[*o as usize % NOUT].0).collect();
         let pol = format!("max_attempts={} initial={:?} max={:?} multiplier={} jitter={}{}", policy.max_attempts, policy.initial_backoff, policy.max_backoff, case.mult, policy.jitter, if case.via_env { " (from_env)" } else { "" });
         let gaps: Vec<Duration> = times.windows(2).map(|w| w[1] - w[0]).collect();
         ctx.event(|| json!({"k":"op","op":"execute","policy":pol,"outcomes":names,"invocations":m,"gaps_ms":gaps.iter().map(|g| g.as_secs_f64()*1000.0).collect::<Vec<_>>()}));
@@ -271,7 +395,7 @@ async fn run(case: &Case, ctx: &mut Ctx) -> Option<Violation> {
         }
         for (i, o) in seq.iter().enumerate() {
             if i < m && *o != 0 {
-                ctx.fault(OUTCOMES[*o as usize % 12].0);
+                ctx.fault(OUTCOMES[*o as usize % NOUT].0);
             }
         }
         macro_rules! viol {
@@ -304,12 +428,20 @@ async fn run(case: &Case, ctx: &mut Ctx) -> Option<Violation> {
             if n.is_nan() || n < 0.0 { 0.0 } else { n }
         };
         for (i, g) in gaps.iter().enumerate() {
+            if absurd {
+                // driven in half-year steps: the measured gaps say nothing
+                break;
+            }
             let o = seq.get(i).copied().unwrap_or(1);
-            let hint = OUTCOMES[o as usize % 12].2.map(Duration::from_millis);
             let gs = g.as_secs_f64();
             let ms = 0.001;
+            // a zero hint may be honoured (no wait) or treated as absent (computed backoff)
+            let hint = hint_of(o).filter(|h| !(h.is_zero() && gs > 2.0 * ms));
             ctx.count("gaps_measured");
-            if let Some(h) = hint {
+            if let Some(h) = hint.filter(|h| h.as_millis() > u128::from(YEAR_MS)) {
+                // (only reachable if the wait was shorter than the cut-off)
+                viol!("hint_not_respected", ",absurd_hint", format!("the wait before attempt #{} was {g:?}; the failed attempt carried Retry-After {h:?}", i + 2));
+            } else if let Some(h) = hint {
                 let x = h.as_secs_f64();
                 let hi = if policy.jitter { x * 1.3 + 2.0 * ms } else { x + ms };
                 if gs + 1e-9 < x || gs > hi + 1e-9 {
@@ -349,6 +481,10 @@ async fn run(case: &Case, ctx: &mut Ctx) -> Option<Violation> {
         }
         let res = match res {
             Err(_elapsed) => {
+                if absurd {
+                    ctx.count("absurd_waits_abandoned_after_2_virtual_years");
+                    break;
+                }
                 viol!("no_completion", "", format!("execute did not complete within the virtual budget of {budget:?} ({m} invocations so far)"));
             }
             Ok(r) => r,
@@ -363,19 +499,24 @@ async fn run(case: &Case, ctx: &mut Ctx) -> Option<Violation> {
             let o = seq.get(i).copied().unwrap_or(1);
             exp_m = i + 1;
             exp_last = o;
-            if !OUTCOMES[o as usize % 12].1 {
+            if !retryable(o) {
+                break;
+            }
+            if i >= seq.len() + 8 {
+                // a policy with a huge max_attempts: the script is over, every further attempt fails the same way
                 break;
             }
         }
-        if m != exp_m {
+        let open_ended = policy.max_attempts as usize >= seq.len() + 8 && seq.iter().all(|o| retryable(*o));
+        if m != exp_m && !(open_ended && m >= exp_m) {
             let class_extra = if m < exp_m { ",stopped_early" } else { ",continued_after_terminal" };
             viol!("wrong_attempt_count", class_extra, format!("the operation was invoked {m} times; it must stop at the first success or definitive error, or after max_attempts retries: expected {exp_m}"));
         }
         match (&res, exp_last) {
             (Ok(v), 0) if *v == exp_m - 1 => {}
-            (Err(e), o) if o != 0 && err_tag(e) == o => {}
+            (Err(e), o) if o != 0 && (err_sig(e) == err_sig(&make_err(o)) || (open_ended && err_sig(e) == err_sig(&make_err(1)))) => {}
             _ => {
-                viol!("wrong_result", "", format!("returned {:?}, expected the outcome of attempt #{exp_m} ({})", res.as_ref().map_err(|e| e.to_string()), OUTCOMES[exp_last as usize % 12].0));
+                viol!("wrong_result", "", format!("returned {:?}, expected the outcome of attempt #{exp_m} ({})", res.as_ref().map_err(|e| e.to_string()), OUTCOMES[exp_last as usize % NOUT].0));
             }
         }
     }
